@@ -26,7 +26,7 @@ def stack_oracle(r):
             got = cyc['results'].get(x)
             if not got or got[0] != 'err':
                 continue
-            if d['cls'] not in ('StageErr', 'PreErr'):
+            if d['cls'] not in ('StageErr', 'PreErr', 'FalsyStageErr', 'FalsyPreErr'):
                 return (f'request {x} failed with {d["cls"]}{d["args"]} instead of the worker\'s own exception type', None)
             if d['args'] != [got[1]]:
                 return (f'request {x}: exception args {d["args"]} differ from the injected failure code {got[1]}', None)
